@@ -864,7 +864,10 @@ func oracleC10(g *Gen, n int) {
 		seqMaxN = 48
 	}
 	cases += c10OracleSeqSmall(g, seqMaxN, hs, n/4)
-	// (b) random index sets, one or two faults, larger trees
+	// (b) random index sets, one or two faults, larger trees (with a share of their own however large the sweeps above are)
+	if n < cases+n/3 {
+		n = cases + n/3
+	}
 	for cases < n {
 		N := g.Intn(maxN*3 + 1)
 		if g.Chance(10) {
